@@ -32,7 +32,7 @@ Step(r) ==
         /\ conn' = [l \in Links |-> FALSE] /\ tornSince' = [l \in Links |-> FALSE] /\ upSince' = [l \in Links |-> IF l <= r.n THEN 0 ELSE -1]
         /\ quietSince' = 0 /\ act' = "Init"
     ELSE IF r.ev = "Housekeeping" THEN Pass(r.t, timeout, cto, Torn(r), ConnOf(r))
-    ELSE IF r.ev = "UplinkPkt" THEN Arrive(r.l, r.t, r.cls, r.len, ConnOf(r), CleanRejoin(r))
+    ELSE IF r.ev = "UplinkPkt" THEN Arrive(r.l, r.t, r.cls, r.len, ConnOf(r), CleanRejoin(r), r.stray)
     ELSE IF r.ev \in {"ClientPkt", "FlushTick"} /\ \E l \in 1..N(r) : r.marked[l]
          THEN /\ \A l \in 1..N(r) : r.marked[l] => r.sendfail[l]        \* only a link whose send just failed
               /\ SendFailure({l \in 1..N(r) : r.marked[l]}, r.t, ConnOf(r))
